@@ -370,16 +370,18 @@ def finish(prop, results, t_start, design_ref, bounds, outside, assumptions, ext
             inconclusive.append(r)
         else:
             inconclusive.append(r)
-    os.makedirs(os.path.join(VERIF, "evidence"), exist_ok=True)
-    os.makedirs(os.path.join(VERIF, "scratch", "replay"), exist_ok=True)
-    for _f in os.listdir(os.path.join(VERIF, "scratch", "replay")):
+    EVID = os.environ.get("SYMGRID_EVIDENCE_DIR", os.path.join(VERIF, "evidence"))       # overridden only by the seeded-change matrix (tools/seed_matrix.py)
+    SCR = os.environ.get("SYMGRID_SCRATCH_DIR", os.path.join(VERIF, "scratch"))
+    os.makedirs(EVID, exist_ok=True)
+    os.makedirs(os.path.join(SCR, "replay"), exist_ok=True)
+    for _f in os.listdir(os.path.join(SCR, "replay")):
         if _f.startswith(prop + "_"):
-            os.remove(os.path.join(VERIF, "scratch", "replay", _f))
+            os.remove(os.path.join(SCR, "replay", _f))
     for e, rs in known_hits.values():
         print(f"KNOWN-FINDING: property={prop} {e['key']}: {e['what']} ({len(rs)} obligation(s))")
     replay_paths = []
     for i, r in enumerate(viol):
-        path = os.path.join(VERIF, "scratch", "replay", f"{prop}_{i}.json")
+        path = os.path.join(SCR, "replay", f"{prop}_{i}.json")
         with open(path, "w") as fh:
             json.dump(r, fh, indent=1, default=str)
         replay_paths.append(path)
@@ -443,7 +445,7 @@ def finish(prop, results, t_start, design_ref, bounds, outside, assumptions, ext
         cov.update(extra_cov)
     ev = dict(property_id=prop, tier=tier(), seed=seed(), level="proof", coverage=cov, assumptions=assumptions,
               wall_s=round(time.time() - t_start, 2), violations=len(viol))
-    with open(os.path.join(VERIF, "evidence", f"{prop}.json"), "w") as fh:
+    with open(os.path.join(EVID, f"{prop}.json"), "w") as fh:
         json.dump(ev, fh, indent=1, default=str)
     status = 1 if viol else (2 if (inconclusive or unrep or errors) else 0)
     print(f"{prop} tier={tier()} obligations={n_obl} discharged={discharged} {by_how} known={n_known} violations={len(viol)} "
